@@ -199,16 +199,14 @@ example : (((Iter.mk' [([1], [1]), ([3], [3]), ([5], [5])] [] (some [5]) true).s
     ∧ (((Iter.mk' [([1], [1]), ([3], [3]), ([5], [5])] [] (some [5]) false).seek [2]).1.cur = some ([3], [3])) := by
   decide
 
-/-! ### GoBadgerDB iterator (repaired code, /repo commits 0f6664f and 406d120)
+/-! ### GoBadgerDB iterator (repaired code, /repo commits 0f6664f, 406d120, 5ca8d51)
 
 `BIter` mirrors `goBadgerDBIt` as repaired: the constructor leaves the iterator unpositioned
-(`fresh`), `Valid` requires `start ≤ key < end`, `Rewind` of a reverse iterator skips the bound,
-`Seek` clamps the target into `[start, end)`, a reverse `Seek` with an empty target is `done`,
-`Next` on an exhausted iterator returns false.  The earlier refutation (`badger_iter_full_false`:
-the prefix scan of `a` returned `b`) no longer applies; its witness is kept as a regression input
-(`corpus/C06/s_c06_badger_bound.ops`).  One deviation from `goLevelDBIt` remains and is *not*
-covered by the scan theorems: the first `Next` of a fresh *reverse* iterator acts as `Rewind`
-(goleveldb/memdb: stays invalid) — findings.d/C06.json, `corpus/C06/badger_residual.ops`. -/
+(`fresh`; the first `Next` is `Rewind` forward and finds nothing in reverse), `Valid` requires
+`start ≤ key < end`, `Rewind` of a reverse iterator skips the bound, `Seek` clamps the target into
+`[start, end)`, a reverse `Seek` with an empty target is `done`, `Next` on an exhausted iterator
+returns false.  The earlier refutation (`badger_iter_full_false`) no longer applies; its witness
+and those of the later deviations are kept as regression inputs (`corpus/C06/*.ops`). -/
 
 /-- forward badger iteration (`Rewind`, then `Next` while `Valid`) visits exactly the in-range
 entries in ascending order, each once — the same statement as `iter_forward`. -/
